@@ -429,18 +429,47 @@ static void run_cc1(int argc, char **argv, char *input, char *output) {
   run_subprocess(args);
 }
 
+static bool is_word_char(char c) {
+  return isalnum(c) || c == '_' || c == '$' || (unsigned char)c >= 0x80;
+}
+
+// Returns true if `tok2` would not be read back as the same token
+// when it is printed right after `tok1` without a separating space,
+// e.g. `-` `-`, `x` `1`, `1` `.5` or `L` `"s"`.
+static bool would_fuse(Token *tok1, Token *tok2) {
+  char a = tok1->loc[tok1->len - 1];
+  char b = tok2->loc[0];
+
+  if (is_word_char(a) && (is_word_char(b) || b == '"' || b == '\''))
+    return true;
+
+  // A pp-number continues with `.`, and with a sign after an exponent.
+  bool is_num = isdigit(tok1->loc[0]) || (tok1->loc[0] == '.' && tok1->len > 1);
+  if (is_num && (b == '.' || b == '+' || b == '-'))
+    return true;
+  if (a == '.' && (isdigit(b) || b == '.'))
+    return true;
+
+  // Punctuators that would form a longer punctuator or a comment.
+  if (b == '=' && strchr("<>=!+-*/%&|^", a))
+    return true;
+  if (a == b && strchr("+-<>&|#/", a))
+    return true;
+  return (a == '-' && b == '>') || (a == '/' && b == '*');
+}
+
 // Print tokens to stdout. Used for -E.
 static void print_tokens(Token *tok) {
   FILE *out = open_file(opt_o ? opt_o : "-");
 
-  int line = 1;
+  Token *prev = NULL;
   for (; tok->kind != TK_EOF; tok = tok->next) {
-    if (line > 1 && tok->at_bol)
+    if (prev && tok->at_bol)
       fprintf(out, "\n");
-    if (tok->has_space && !tok->at_bol)
+    else if (prev && (tok->has_space || would_fuse(prev, tok)))
       fprintf(out, " ");
     fprintf(out, "%.*s", tok->len, tok->loc);
-    line++;
+    prev = tok;
   }
   fprintf(out, "\n");
 }
